@@ -2,6 +2,7 @@
 package c04
 
 import (
+	"encoding/json"
 	"fmt"
 	"slices"
 	"testing"
@@ -36,6 +37,7 @@ type set interface {
 	Size() int
 	Empty() bool
 	Values() []int
+	FromJSON([]byte) error
 }
 
 const domainHi = 8
@@ -149,6 +151,19 @@ func check(c Case) (pbt.Info, error) {
 			for _, s := range sets {
 				s.Clear()
 			}
+		case "load":
+			// a state reached through FromJSON is a reachable state: the array (with
+			// its repeats) replaces the members, and the set keeps answering exactly
+			exact, coarse = map[int]bool{}, map[int]bool{}
+			for _, v := range op.Vs {
+				add(v)
+			}
+			doc, _ := json.Marshal(append([]int{}, op.Vs...))
+			for si, s := range sets {
+				if err := s.FromJSON(doc); err != nil {
+					return info, fmt.Errorf("%s step %d: FromJSON(%s) failed: %v", names[si], i, doc, err)
+				}
+			}
 		case "contains":
 			for si, s := range sets {
 				want := true
@@ -202,7 +217,9 @@ func gen(t *rapid.T) Case {
 	c.Init = vals(t, "init", 5)
 	n := rapid.IntRange(0, 30).Draw(t, "n")
 	for i := 0; i < n; i++ {
-		switch dom.Weighted(t, "op", 1, 40, 30, 2, 10) {
+		switch dom.Weighted(t, "op", 1, 40, 30, 2, 10, 2) {
+		case 5:
+			c.Ops = append(c.Ops, Op{O: "load", Vs: vals(t, "doc", 8)})
 		case 0:
 		case 1:
 			c.Ops = append(c.Ops, Op{O: "add", Vs: vals(t, "vs", 6)})
@@ -241,7 +258,9 @@ func genLarge(t *rapid.T) Case {
 	}
 	for chunk := 0; chunk < 4; chunk++ {
 		ops := rapid.SliceOfN(rapid.Custom(func(t *rapid.T) Op {
-			switch dom.Weighted(t, "op", 45, 45, 1, 9) {
+			switch dom.Weighted(t, "op", 45, 45, 1, 9, 1) {
+			case 4:
+				return Op{O: "load", Vs: v("doc", 60)}
 			case 0:
 				return Op{O: "add", Vs: v("vs", 4)}
 			case 1:
